@@ -172,8 +172,12 @@ def check_upper(case):
                     require(relerr(sf * sf2, 1.0) <= 100 * tol + 1e-13 / edge, "curve separation factor %r is not the inverse of the relabelled one %r", sf, sf2)
                 if mdl == "NRTL":  # a curve inverts fluxes with NRTL whatever model produced them
                     se, se2 = float(dc.get_selectivity[0]), float(dc2.get_selectivity[0])
+                    # the inversion divides by feed - permeate pressure: rounding in the iterate is amplified by the cancellation
+                    # factor (vacuum flux / flux) once in the solver and once in the inversion (thorough-tier false alarm near equilibrium)
+                    cond = 1.0 if is_raised(jv) else max(abs(float(jv[i])) / max(abs(float(j[i])), 1e-300) for i in (0, 1))
                     if math.isfinite(se) and se > 0 and math.isfinite(se2):
-                        require(relerr(se * se2, 1.0) <= 1000 * tol, "curve selectivity %r is not the inverse of the relabelled one %r", se, se2)
+                        require(relerr(se * se2, 1.0) <= 1000 * tol + 1e-13 * cond * cond / edge,
+                                "curve selectivity %r is not the inverse of the relabelled one %r", se, se2)
         # processes
         dt = procs.step_length(case, s)
         cond = procs.conditions_spec(case, s, dt)
